@@ -7,7 +7,7 @@ different cooperating parsers tile the input."""
 import ast
 from ..core import (AnalysisError, short, unparse, iter_own, call_name, call_recv, kwarg,
                     is_self_attr, atomic_facts, parents, enclosing_stmt, enclosing_func)
-from .. import affine, symex
+from .. import affine, symex, shapes
 
 COLL = 'pylatexenc.latexnodes._nodescollector'
 NODES = 'pylatexenc.latexnodes.nodes'
@@ -89,7 +89,7 @@ def run(ctx):
                               construct=cons, trivial=(affine.show(width) == '0'))
                     continue
                 # token span lemma: a 'char' token satisfies pos_end - pos == len(arg)
-                lemma = _token_lemma(c, chars, pos, pe, d)
+                lemma = _token_lemma(c, chars, pos, pe, d, mod)
                 if lemma:
                     ctx.holds('R01a', mod, c, lemma, construct=cons)
                 elif not d[1]:
@@ -330,17 +330,43 @@ def run(ctx):
                '_update_posposend_from_nodelist does not take pos from the first and pos_end from '
                'the last non-None child', construct='_update_posposend_from_nodelist')
     lv = nm.methods('LatexNode').get('latex_verbatim')
-    ok = lv is not None and any(isinstance(r, ast.Return) and unparse(r.value).replace(' ', '') ==
-                                'self.latex_walker.s[self.pos:self.pos_end]' for r in iter_own(lv))
-    ctx.decide('R01i', ok, nm, lv or nm.cls('LatexNode'), 'latex_verbatim() = s[pos:pos_end]',
-               'LatexNode.latex_verbatim() is not latex_walker.s[pos:pos_end]',
-               construct='LatexNode.latex_verbatim')
     llv = nm.methods('LatexNodeList').get('latex_verbatim')
-    t = unparse(llv) if llv is not None else ''
-    ok = "''.join([n.latex_verbatim() for n in self.nodelist if n is not None])" in t
-    ctx.decide('R01i', ok, nm, llv or nm.cls('LatexNodeList'),
-               'list verbatim = concatenation of the children in order',
-               'LatexNodeList.latex_verbatim() is not the in-order concatenation of its children',
+    if lv is None or llv is None:
+        raise AnalysisError('anchor vanished: latex_verbatim')
+    rcs = symex.return_cases(lv)
+    bad = [c for c in rcs if unparse(c.sub).replace(' ', '') != 'self.latex_walker.s[self.pos:self.pos_end]']
+    ctx.decide('R01i', bool(rcs) and not bad, nm, lv, 'latex_verbatim() = s[pos:pos_end]',
+               'LatexNode.latex_verbatim() returns %s, not latex_walker.s[pos:pos_end]'
+               % (short(bad[0].sub) if bad else 'nothing'), construct='LatexNode.latex_verbatim')
+    why = None
+    rcs = symex.return_cases(llv)
+    if len(rcs) != 1:
+        why = '%d return cases' % len(rcs)
+    else:
+        v = rcs[0].node.value
+        if not (isinstance(v, ast.Call) and call_name(v) == 'join' and isinstance(call_recv(v), ast.Constant)
+                and call_recv(v).value == '' and len(v.args) == 1):
+            why = 'the result %s is not the plain concatenation of a list' % short(v)
+        else:
+            ew = shapes.elementwise(llv, v.args[0])
+            if ew is None:
+                why = 'the list joined (%s) is not built element by element in a recognised way' % short(v.args[0])
+            elif unparse(ew.iter_expr) != 'self.nodelist':
+                why = 'iterates %s, not self.nodelist' % short(ew.iter_expr)
+            else:
+                for conds, apps in ew.outcomes:
+                    facts = ew.facts_of(conds)
+                    isnone = (ew.var + ' is None', True) in facts or (ew.var + ' is not None', False) in facts
+                    if apps is None:
+                        why = 'the loop is left early'
+                    elif isnone and apps:
+                        why = 'a None child contributes %s' % short(apps[0])
+                    elif not isnone and not (len(apps) == 1 and apps[0] is not None and
+                                             unparse(apps[0]) == ew.var + '.latex_verbatim()'):
+                        why = 'a child contributes %s, not exactly its own latex_verbatim()' % (
+                            [short(a) if a is not None else '?' for a in apps])
+    ctx.decide('R01i', why is None, nm, llv, 'list verbatim = concatenation of the children in order',
+               'LatexNodeList.latex_verbatim() is not the in-order concatenation of its children: %s' % why,
                construct='LatexNodeList.latex_verbatim')
     ln = nm.methods('LatexNode').get('len')
     ok = ln is not None and 'return self.pos_end - self.pos' in unparse(ln)
@@ -433,19 +459,53 @@ def _alias_of(f, expr, target):
     return False
 
 
-def _token_lemma(call, chars, pos, pe, d):
+def _caller_facts(mod, fn):
+    """facts that dominate every call `self.<fn.name>(...)` / `<fn.name>(...)` in the module, with
+    the argument names rewritten to the parameter names (private helpers only: their call sites
+    are all in this module).  None if there is no call site or the helper is public."""
+    if not fn.name.startswith('_') or fn.name.startswith('__'):
+        return None
+    params = [a.arg for a in fn.args.args]
+    if params and params[0] in ('self', 'cls'):
+        params = params[1:]
+    sites = [c for c in ast.walk(mod.tree) if isinstance(c, ast.Call) and call_name(c) == fn.name]
+    if not sites:
+        return None
+    common = None
+    for c in sites:
+        if c.keywords or len(c.args) != len(params) or not all(isinstance(a, ast.Name) for a in c.args):
+            return None
+        ren = dict((a.id, p) for a, p in zip(c.args, params))
+
+        class R(ast.NodeTransformer):
+            def visit_Name(self, n):
+                return ast.Name(id=ren.get(n.id, n.id), ctx=n.ctx)
+        fs = set()
+        for t, pol in atomic_facts(c):
+            fs.add((unparse(R().visit(symex.clone(t))), pol))
+        common = fs if common is None else (common & fs)
+    return common
+
+
+def _token_lemma(call, chars, pos, pe, d, mod=None):
     """chars=T.arg, pos=T.pos, pos_end=T.pos_end under the fact T.tok == 'char' (C11 R11a/R01b:
-    a char token's span equals the length of its text)."""
+    a char token's span equals the length of its text).  The fact may dominate the construction
+    site itself or every call site of the private helper that contains it."""
     c, p = unparse(chars), unparse(pos)
     if pe is None or not c.endswith('.arg'):
         return None
     t = c[:-4]
     if p == t + '.pos' and unparse(pe) == t + '.pos_end':
-        facts = atomic_facts(call)
-        if any(pol and unparse(x) in ("%s.tok == 'char'" % t,) for x, pol in facts):
+        facts = [(unparse(x), pol) for x, pol in atomic_facts(call)]
+        fn = enclosing_func(call)
+        if mod is not None and fn is not None:
+            cf = _caller_facts(mod, fn)
+            if cf:
+                facts = facts + list(cf)
+        if any(pol and x in ("%s.tok == 'char'" % t,) for x, pol in facts):
             return "token-span lemma: %s is a 'char' token, pos_end - pos == len(arg)" % t
         # the math-delimiter recovery node: delimiter tokens also span exactly their text
-        if any(pol and ("%s.tok in ('mathmode_inline', 'mathmode_display')" % t) in unparse(x)
+        if any(pol and ("%s.tok in ('mathmode_inline', 'mathmode_display')" % t) in x
                for x, pol in facts):
             return 'token-span lemma: math delimiter tokens span exactly their delimiter text'
     return None
@@ -474,8 +534,27 @@ def _recovery_spans(f, rn, env):
             if isinstance(s, ast.Assign) and unparse(s.targets[0]) == rn.id and isinstance(s.value, ast.Call):
                 exprs.append(s.value)
     out = []
+    mod = getattr(f, '_module', None)
     for e in exprs:
         if call_name(e) not in ('make_node', 'make_nodelist'):
+            # a private helper of the same module that builds the node: follow one level
+            helper = None
+            for cand in _same_module_functions(f).get(call_name(e), []):
+                helper = cand
+            if helper is None or e.keywords:
+                continue
+            hp = [a.arg for a in helper.args.args]
+            if hp and hp[0] in ('self', 'cls'):
+                hp = hp[1:]
+            if len(hp) != len(e.args):
+                continue
+            ren = dict(zip(hp, e.args))
+            for r in [r for r in iter_own(helper) if isinstance(r, ast.Return) and isinstance(r.value, ast.Call)
+                      and call_name(r.value) in ('make_node', 'make_nodelist')]:
+                p, q = kwarg(r.value, 'pos'), kwarg(r.value, 'pos_end')
+                if p is None or q is None:
+                    continue
+                out.append((unparse(symex.subst(p, ren)), unparse(symex.subst(q, ren)), r.value))
             continue
         p, q = kwarg(e, 'pos'), kwarg(e, 'pos_end')
         if p is None or q is None:
@@ -484,48 +563,86 @@ def _recovery_spans(f, rn, env):
     return out
 
 
+def _same_module_functions(f):
+    """name -> [function nodes] of the module that contains f (found through the parent links)"""
+    root = f
+    while getattr(root, '_parent', None) is not None:
+        root = root._parent
+    out = {}
+    for n in ast.walk(root):
+        if isinstance(n, ast.FunctionDef):
+            out.setdefault(n.name, []).append(n)
+    return out
+
+
 def _paired_truncation(ctx, vm, clsname, f):
+    """finalize_verbatim_string on every structural path (values substituted, E7):
+    pos_end - pos_start == len(<returned text>), the returned text is the parameter cut by
+    slices only, and pos_start minus the number of characters cut at the front is the same
+    base position on all paths (a front cut is paired with an equal advance of the start)."""
     sparam = f.args.args[1].arg
-    pos_var = None
+    vi = f.args.args[2].arg
+    PS_, PE_ = vi + '.pos_start', vi + '.pos_end'
     cons = clsname + '.finalize_verbatim_string'
-    # pos_end = pos_start + len(text)
-    t = unparse(f)
-    pe = [s for s in iter_own(f) if isinstance(s, ast.Assign) and unparse(s.targets[0]).endswith('.pos_end')]
-    ps = [s for s in iter_own(f) if isinstance(s, ast.Assign) and unparse(s.targets[0]).endswith('.pos_start')]
-    ok = len(pe) == 1 and len(ps) == 1 and \
-        unparse(pe[0].value).replace(' ', '') == (unparse(ps[0].value) + '+len(%s)' % sparam).replace(' ', '')
-    ctx.decide('R01g', ok, vm, pe[0] if pe else f, 'pos_end = pos_start + len(text)',
-               'finalize_verbatim_string does not set pos_end = pos_start + len(<returned text>)',
-               construct=cons + ': pos_end')
-    rets = [r for r in iter_own(f) if isinstance(r, ast.Return)]
-    okr = all(r.value is not None and unparse(r.value) == sparam for r in rets) and bool(rets)
-    # every re-binding of the text
-    for s in [s for s in iter_own(f) if isinstance(s, ast.Assign) and unparse(s.targets[0]) == sparam]:
-        v = s.value
-        if isinstance(v, ast.Subscript) and isinstance(v.slice, ast.Slice) and unparse(v.value) == sparam:
-            lo, hi = v.slice.lower, v.slice.upper
+
+    def front_cut(e):
+        if isinstance(e, ast.Name) and e.id == sparam:
+            return ast.Constant(value=0)
+        if isinstance(e, ast.Subscript) and isinstance(e.slice, ast.Slice) and e.slice.step is None:
+            inner = front_cut(e.value)
+            if inner is None:
+                return None
+            lo = e.slice.lower
             if lo is None:
-                ctx.holds('R01g', vm, s, 'cut at the end only: start position unchanged',
-                          construct='%s: %s' % (cons, short(s)))
-                continue
-            # front cut by n: the same block must advance the start position by n
-            blk = _block_of(s)
-            adv = [x for x in blk if isinstance(x, ast.AugAssign) and isinstance(x.op, ast.Add)]
-            n = unparse(lo)
-            ok = hi is None and any(unparse(a.value) == n for a in adv)
-            ctx.decide('R01g', ok, vm, s, 'front cut by %s paired with start += %s' % (n, n),
-                       'the text is cut at the front by %s but the start position is advanced by %s: '
-                       'the chars node no longer equals the source slice at its position'
-                       % (n, [short(a) for a in adv] or 'nothing'),
-                       construct='%s: %s' % (cons, short(s)))
-        else:
-            ctx.refuted('R01g', vm, s, 'the verbatim text is rebuilt as %s: characters are removed or '
-                                       'changed without a matching position update, so the node\'s '
-                                       'text is not the source slice at its position' % short(v),
-                        construct='%s: %s' % (cons, short(s)))
-    ctx.decide('R01g', okr, vm, f, 'returns the (possibly truncated) text itself',
-               'finalize_verbatim_string returns something else than the text it positioned',
-               construct=cons + ': return value')
+                return inner
+            if isinstance(lo, ast.UnaryOp):
+                return None            # negative start: counts from the end
+            return ast.BinOp(left=inner, op=ast.Add(), right=lo)
+        return None
+    try:
+        rcs = [c for c in symex.Walker(want_returns=True, track_attrs=(PS_, PE_)).run(f) if c.kind == 'return']
+    except symex.TooManyPaths as e:
+        ctx.unknown('R01g', vm, f, str(e), construct=cons)
+        return
+    bases = {}
+    for cs in rcs:
+        path = ' & '.join(cs.cond_src())[-90:]
+        T, P, E = cs.sub, cs.env.get(PS_), cs.env.get(PE_)
+        pc = '%s [%s]' % (cons, path)
+        if P is None or E is None:
+            ctx.refuted('R01g', vm, cs.node, 'pos_start / pos_end are not set on this path', construct=pc + ' span')
+            continue
+        fc = front_cut(T)
+        if fc is None:
+            ctx.refuted('R01g', vm, cs.node, 'the verbatim text is rebuilt as %s: characters are removed or '
+                        'changed without a matching position update, so the node\'s text is not the source '
+                        'slice at its position' % short(T, 70), construct=pc + ' text')
+            continue
+        try:
+            d = affine.diff(E, P, {})
+            ln = affine.norm_len(T, {})
+            ok_len = d == (ln[0], dict((k, v) for k, v in ln[1].items() if v))
+            base = affine.diff(P, fc, {})
+        except affine.NotAffine as e:
+            ctx.unknown('R01g', vm, cs.node, 'span not affine: %s' % e, construct=pc + ' span')
+            continue
+        ctx.decide('R01g', ok_len, vm, cs.node, 'pos_end = pos_start + len(returned text)',
+                   'finalize_verbatim_string does not set pos_end = pos_start + len(<returned text>): '
+                   'pos_end - pos_start is %s, the text has length %s' % (affine.show(d), affine.show(ln)),
+                   construct=pc + ' pos_end')
+        bases[affine.show(base)] = (cs, fc)
+        ctx.holds('R01g', vm, cs.node, 'text is the parameter cut by slices; front cut %s' % short(fc),
+                  construct=pc + ' text', trivial=True)
+    if len(bases) > 1:
+        shown = sorted(bases)
+        cs, fc = bases[shown[-1]]
+        ctx.refuted('R01g', vm, cs.node, 'the text is cut at the front by %s on one path but the start '
+                    'position is not advanced by the same amount (start minus front cut is %s on different '
+                    'paths): the chars node no longer equals the source slice at its position'
+                    % (short(fc), ' / '.join(shown)), construct=cons + ': front cut paired with start')
+    elif bases:
+        ctx.holds('R01g', vm, f, 'start position = %s + characters cut at the front, on all %d path(s)'
+                  % (list(bases)[0], len(rcs)), construct=cons + ': front cut paired with start')
 
 
 def _block_of(st):
